@@ -20,7 +20,9 @@ PANIC_KINDS = ("unreachable", "panic", "todo", "unimplemented", "assert", "asser
 UNWRAPS = re.compile(r"^std::(option::Option::<T>|result::Result::<T, E>)::(unwrap|expect|unwrap_err|expect_err)$")
 STD_PANICKERS = re.compile(
     r"^(std::vec::Vec::<T, A>::(remove|swap_remove|insert|split_off|drain)|"
-    r"std::string::String::(remove|insert|insert_str|split_off|drain)|"
+    r"std::string::String::(remove|insert|insert_str|split_off|drain|truncate|replace_range)|"      # truncate / replace_range: byte offsets must be char boundaries
+    r"std::vec::Vec::<T, A>::(splice|extend_from_within)|core::slice::<impl \[T\]>::(chunks_exact|rchunks|copy_within|select_nth_unstable)|"
+    r"core::str::<impl str>::split_at_mut|core::char::methods::<impl char>::(to_digit|from_digit)|core::char::from_digit|"
     r"core::slice::<impl \[T\]>::(split_at|split_at_mut|copy_from_slice|clone_from_slice|swap|chunks|windows|rotate_left|rotate_right)|"
     r"core::str::<impl str>::split_at|std::cell::RefCell::<T>::(borrow|borrow_mut)|"
     r"std::iter::Iterator::step_by|std::collections::VecDeque::<T, A>::(remove|swap))$")
